@@ -2,7 +2,7 @@
    forest and non-forest edges, produced by the generator and echoed by the harness) for the matrix (orientation 0) or its
    transpose (orientation 1).  If it passes check_graph_cert, the 0/1 matrix is graphic resp. cographic and hence regular
    (GraphicRegular.v), so CMRregularTest must answer "regular" whatever its parameters.  No proofs here. *)
-From Cmr Require Import Base Det TuModel GraphModel.
+From Cmr Require Import Base Det TuModel GraphModel SpModel.
 Local Open Scope Z_scope.
 
 Definition regular_cert_input :=
@@ -14,17 +14,23 @@ Definition cert_holds (tr : bool) (m n : nat) (M : mat) (G : graph) (f c : list 
 (* record: ncfg cfg M rc verdict(0/1, 2 = not written) transposed witness
    0 accepted (also when the witness does not certify anything); 1 malformed record; 440 CMRregularTest failed on a (co)graphic
    matrix; 441 verdict not written although no stop flag is set; 442 a (co)graphic matrix is reported not regular *)
+(* without witness: a 0/1 matrix that the binary series-parallel reduction model reduces to nothing (SpTU.sp_binary_regular) *)
+Definition regular_certified (tr : bool) (m n : nat) (M : mat) (w : witness) : bool :=
+  wf_mat m n M && is_binary M &&
+  match w with
+  | WGraph G f c _ => cert_holds tr m n M G f c
+  | WNone => sp_greedy false m n M
+  | WCore _ _ => false
+  end.
+
 Definition judge_regular_cert (rec : list Z) : Z :=
   match regular_cert_input rec with
   | Some ((cfg, (m, n, M), rc, v, tr, w), _) =>
-    match w with
-    | WGraph G f c _ =>
-      if negb (wf_mat m n M && is_binary M && cert_holds tr m n M G f c) then 0
-      else if negb (rc =? 0) then 440
-      else if v =? 2 then (if cfg_stopflags cfg then 0 else 441)
-      else if negb (v =? 1) then 442
-      else 0
-    | _ => 0
-    end
+    if (rc =? 0) && (v =? 1) then 0
+    else if negb (regular_certified tr m n M w) then 0
+    else if negb (rc =? 0) then 440
+    else if v =? 2 then (if cfg_stopflags cfg then 0 else 441)
+    else if negb (v =? 1) then 442
+    else 0
   | None => 1
   end.
